@@ -64,6 +64,8 @@ def main() -> None:
         s = s[: s.index(BEGIN) + len(BEGIN)] + "\n" + text + s[s.index(END) :]
     else:
         raise SystemExit("markers missing in DESIGN.md")
+    s = re.sub(r"<!--NFIXED-->\d+<!--/NFIXED-->", f"<!--NFIXED-->{len(kf['fixed'])}<!--/NFIXED-->", s)
+    s = re.sub(r"<!--NFIND-->\d+<!--/NFIND-->", f"<!--NFIND-->{len(kf['findings'])}<!--/NFIND-->", s)
     open(p, "w").write(s)
     print("DESIGN.md tables regenerated")
 
